@@ -23,7 +23,7 @@ RULE = (
     "open: the reads touching bytes >= 720 of an image number at most ceil(N / rpc), have "
     "strictly increasing non-overlapping offsets and stay inside the file. Non-trivial: the "
     "selected span covers >= 1 group and fewer than all groups."
-    " Domain guard: a selection is judged only if xarray produces on a trivially correct lazily indexed control backend what it produces in memory. The file objects advertise a block size of 64 bytes."
+    " Domain guard: a selection is judged only if xarray produces on a trivially correct lazily indexed control backend what it produces in memory. The file objects advertise a block size of 64 bytes. Half of the cases judge an open that follows another open of the same product (handed the very same options dict object, or with another records_per_chunk)."
 )
 ASSUMPTIONS = [
     "the vtrace filesystem sees every byte the library requests (no hidden buffering: it hands out raw file objects)",
@@ -50,6 +50,9 @@ def cases(draw):
         "selections": sels,
         "second_image": draw(st.booleans()),
         "vseed": draw(st.integers(0, 2**16)),
+        # the judged open is the first one / the second one handed the same options object /
+        # one that follows an open of the same product with another chunking
+        "prior_open": draw(st.sampled_from([None, None, "same-options-object", "other-rpc"])),
     }
 
 
@@ -60,12 +63,12 @@ def plan(tier):
 
 def classify(case):
     n_groups = math.ceil(case["lines"] / min(case["rpc"], case["lines"]))
-    labels = [f"groups={'1' if n_groups == 1 else '2-5' if n_groups <= 5 else '>5'}", f"level={case['level']}"]
+    labels = [f"groups={'1' if n_groups == 1 else '2-5' if n_groups <= 5 else '>5'}", f"level={case['level']}", f"prior_open={case.get('prior_open')}"]
     return n_groups >= 2, labels
 
 
 def sub_units(case):
-    base = [case["level"], case["lines"], case["pixels"], case["rpc"], case["vseed"]]
+    base = [case["level"], case["lines"], case["pixels"], case["rpc"], case["vseed"], case.get("prior_open")]
     n_groups = math.ceil(case["lines"] / min(case["rpc"], case["lines"]))
     yield [base, "open"], True
     for ops in case["selections"]:
@@ -134,8 +137,15 @@ def run_case(case):
     files, info = product.build_product(spec)
     out = []
     with harness.Materialised(files, "vtrace") as prod:
+        import ceos_alos2
+
+        options = {"use_cache": False, "records_per_chunk": case["rpc"]}
+        if case.get("prior_open") == "same-options-object":
+            harness.guard(ceos_alos2.open_alos2, prod.url, backend_options=options)
+        elif case.get("prior_open") == "other-rpc":
+            harness.guard(harness.open_tree, prod.url, use_cache=False, records_per_chunk=case["rpc"] % 7 + 1)
         vtrace.STORE.clear()
-        tree, err = harness.guard(harness.open_tree, prod.url, use_cache=False, records_per_chunk=case["rpc"])
+        tree, err = harness.guard(ceos_alos2.open_alos2, prod.url, backend_options=options)
         events = vtrace.STORE.snapshot()
         if err is not None:
             return [harness.disc("exception", "open_alos2", "a tree", harness.exc_text(err))]
